@@ -12,10 +12,11 @@ CONSTANTS
   Pointers <- MCPointers
   Markers <- MCMarkers
   Ellipses <- MCEllipses
-  Lists <- MCListsQ
+  Lists <- MCListsD
   Multis = {2}
   Queries <- MCQueries
   MaxCount = 12
+  Tracks = {0}
   Acts = {"edit", "move", "toggle", "list", "resize"}
 INIT Init
 NEXT Next
